@@ -31,8 +31,24 @@ static void cleanup(void)
   if (g_data) { free(g_data); g_data = NULL; }
   g_n = 0; lastp = NULL; lastp_ok = 0; stable_on = 0; nsaved = 0;
 }
-static void h_case_begin(void) { cleanup(); }
-static void h_case_end(void)   { cleanup(); }
+/* A case that does not finish in 3 s is an endless loop in the library: die, so that the engine records a fault for it.
+ * Each death leaves a mark in the (per-run) working directory; after 3 of them the remaining cases are answered
+ * "skipped" at once, so that a tree that hangs on many inputs is still reported within a minute or two. */
+#include <signal.h>
+#include <fcntl.h>
+#define HANGMARK "h_buffer.hangs"
+static int g_skip;
+static void on_alarm(int sig) { int fd = open(HANGMARK, O_WRONLY | O_CREAT | O_APPEND, 0600); (void) sig; if (fd >= 0) { if (write(fd, "x", 1) < 0) {} close(fd); } raise(SIGKILL); }
+static void h_case_begin(void)
+{
+  FILE *f; long n = 0;
+  cleanup();
+  if ((f = fopen(HANGMARK, "rb")) != NULL) { fseek(f, 0, SEEK_END); n = ftell(f); fclose(f); }
+  g_skip = (n >= 3);
+  signal(SIGALRM, on_alarm);
+  alarm(3);
+}
+static void h_case_end(void)   { alarm(0); cleanup(); }
 
 static int write_tmp(void)
 {
@@ -70,6 +86,7 @@ static void h_op(void)
   const char *op = h_words[0];
   int status; char *p = NULL; esl_pos_t n = 0;
 
+  if (g_skip) { h_out("skipped"); return; }
   if (!strcmp(op, "open")) {
     const char *mode = h_arg("mode"); unsigned char *tmp; int64_t len;
     if (!mode || !h_arg("hex")) { h_out("bad-op"); return; }
